@@ -70,7 +70,7 @@ def setOptional (v : Bool) (m : Node) : Node :=
   | .mk .tsPropSig [ro, comp, _] ks => .mk .tsPropSig [ro, comp, s] ks
   | .mk .tsMethodSig [comp, _] ks => .mk .tsMethodSig [comp, s] ks
   -- a getter signature has no optional flag: under `Partial` it becomes the optional (readonly) property it declares
-  | .mk .tsGetterSig [comp] ks => if v then .mk .tsPropSig ["true", comp, "true"] ks else m
+  | .mk .tsGetterSig as ks => if v then .mk .tsPropSig ["true", as.headD "false", "true"] ks else m
   | m => m
 
 /-- static key name of a member (identifier or string literal key) -/
